@@ -32,6 +32,9 @@ class Space:
         self.n = n if n is not None else SV(cx.fresh(f"N{tag}", "Int"))
         cx.assume(to_z3(self.n) >= 0)
         self.parent = parent
+        if not hasattr(cx, "spaces"):
+            cx.spaces = []
+        cx.spaces.append(self)
 
     @property
     def is_range(self):
@@ -54,6 +57,31 @@ def _same_space(a, b, what, labels=False):
     ctx().oblige("frame.index-space", z3.BoolVal(False), kind="frame",
                  detail=f"{what}: operands live in different index spaces ({a} vs {b}); positions/labels of one are used on the other")
     raise Unsupported(f"{what}: different index spaces")
+
+
+def space_for_count(n):
+    """the positional layout that an array of `n` rows allocated by the code (np.zeros((n,k)), np.arange(n)) lines up
+    with: n must be the row count of an existing table; the new array is positional (no labels), a DataFrame built
+    from it gets a RangeIndex over the same positions"""
+    cx = ctx()
+    nt = to_z3(n)
+    best = None
+    for sp in getattr(cx, "spaces", []):
+        if to_z3(sp.n).eq(nt):
+            if sp.is_range:
+                return sp
+            best = best or sp
+    if best is not None:
+        return _reset_space(best)
+    raise Unsupported("array allocated with a symbolic length that is not the row count of a known table")
+
+
+def _is_int_type(t):
+    return t is int or t in ("int", "int64", "int32") or getattr(t, "__name__", "") in ("int64", "int32", "int_", "_b_int", "int", "intc")
+
+
+def _is_float_type(t):
+    return t is float or t in ("float", "float64", "float32") or getattr(t, "__name__", "") in ("float64", "float32", "_b_float", "float", "single", "double")
 
 
 def _val(x):
@@ -143,9 +171,9 @@ class GVec(_Generic):
     def sub(self, o): return self - o
     def abs(self): return abs(self)
     def astype(self, t, *a, **k):
-        if t is int or t == "int" or getattr(t, "__name__", "") in ("int64", "int32", "int_"):
+        if _is_int_type(t):
             return self._new(sym.pyint(self.val) if isinstance(self.val, (SV, SB)) else int(self.val))
-        if t is float or t == "float" or getattr(t, "__name__", "") in ("float64", "float32"):
+        if _is_float_type(t):
             return self._new(sym.pyfloat(self.val) if isinstance(self.val, (SV, SB)) else self.val)
         if t is str:
             raise Unsupported("astype(str) on a symbolic column")
@@ -386,9 +414,9 @@ class RowArr(_Generic):
     def __sym_len__(self): return self.space.n
     def copy(self): return self._new(self.vals)
     def astype(self, t, *a, **k):
-        if t is int or t == "int" or getattr(t, "__name__", "") in ("int64", "int32", "int_"):
+        if _is_int_type(t):
             return self._new([sym.pyint(v) if isinstance(v, (SV, SB)) else int(v) for v in self.vals])
-        if t is float or getattr(t, "__name__", "") in ("float64", "float32"):
+        if _is_float_type(t):
             return self._new([sym.pyfloat(v) if isinstance(v, (SV, SB)) else float(v) for v in self.vals])
         raise Unsupported(f"astype({t})")
     def __getitem__(self, key):
@@ -984,3 +1012,14 @@ class _OneRowILoc:
     def __getitem__(self, k):
         if k == 0: return GRow(list(self.r.d), self.r.d)
         raise Unsupported("one-row iloc")
+
+
+class RowPos:
+    """0-based position of the generic row within a positional layout"""
+    def __init__(self, space):
+        cx = ctx()
+        t = z3.Int(f"pos!{space.pos_id}")
+        if not hasattr(space, "_pos_declared"):
+            space._pos_declared = True
+            cx.assume(z3.And(t >= 0, t < to_z3(space.n)))
+        self.val = SV(t)
